@@ -77,6 +77,10 @@ def create_lattice_elements(cell_centers: list, **kwargs) -> tuple:
 
                     vertex_number_2 = get_vertex_number(v1, new_vertices)
 
+                    if vertex_number_1 == vertex_number_2:
+                        # both ends of the ridge round to the same point: no mesh edge
+                        continue
+
                     enum = get_enum([vertex_number_1, vertex_number_2], new_edges)
 
                     temp_big_edge.append(enum)
